@@ -133,10 +133,32 @@ type kinEnv struct {
 
 var c16Quiet sync.Once
 
-func newKinEnv(shards, runners int) (*kinEnv, error) {
+// c16PageListShards makes the fake answer ListShards in pages of `page` shards (the splitter sends no MaxResults of its
+// own; Kinesis pages at 1000 shards): the request is given a MaxResults, so listAllShards has to follow NextToken.
+func c16PageListShards(srv *httptest.Server, page int) {
+	inner := srv.Config.Handler
+	srv.Config.Handler = http.HandlerFunc(func(w http.ResponseWriter, r *http.Request) {
+		if strings.HasSuffix(r.Header.Get("x-amz-target"), ".ListShards") {
+			body, _ := io.ReadAll(r.Body)
+			var req map[string]any
+			if json.Unmarshal(body, &req) == nil {
+				req["MaxResults"] = page
+				body, _ = json.Marshal(req)
+			}
+			r.Body = io.NopCloser(strings.NewReader(string(body)))
+			r.ContentLength = int64(len(body))
+		}
+		inner.ServeHTTP(w, r)
+	})
+}
+
+func newKinEnv(shards, runners int, page ...int) (*kinEnv, error) {
 	c16Quiet.Do(func() { slog.SetDefault(slog.New(slog.NewTextHandler(io.Discard, nil))) })
 	e := &kinEnv{done: map[int]bool{}, errCh: make(chan error, 64)}
 	srv, _ := kinesisfake.StartFake()
+	if len(page) > 0 && page[0] > 0 {
+		c16PageListShards(srv, page[0])
+	}
 	e.srv = srv
 	e.client = kinesis.NewLocalClient(srv.URL)
 	name := "s"
@@ -396,13 +418,13 @@ func c16Retry(run func() []string) []string {
 // fake (a connection closed under the client, a wait that hit its last-resort bound), the whole case is run again on a
 // fresh fake, client and splitter. Behaviour of the splitter is deterministic in the ops, so a defect shows in every
 // attempt, while the noise does not repeat.
-func implKin(c lib.Case, shards, runners int) []string {
-	return c16Retry(func() []string { return implKinOnce(c, shards, runners) })
+func implKin(c lib.Case, shards, runners, page int) []string {
+	return c16Retry(func() []string { return implKinOnce(c, shards, runners, page) })
 }
 
-func implKinOnce(c lib.Case, shards, runners int) []string {
+func implKinOnce(c lib.Case, shards, runners, page int) []string {
 	out := make([]string, 0, len(c.Ops))
-	e, err := newKinEnv(shards, runners)
+	e, err := newKinEnv(shards, runners, page)
 	defer e.close()
 	if err != nil {
 		for range c.Ops {
@@ -824,6 +846,7 @@ type cutReport struct {
 }
 
 type cutEnv struct {
+	finishedOK  func(split int) bool          // the reader reported the end of this split (its records may precede barriers that omit it)
 	parseState  func([]byte) (split, pos int) // one entry of SplitStates
 	finalSplits func() []cutSplit             // the reader's splits with assigned and current position
 	sr          *sourcerunner.SourceRunner
@@ -957,7 +980,7 @@ func (e *cutEnv) awaitBarrier(id uint64) string {
 	return "st " + strings.Join(st, ",") + " | " + strings.Join(del, " ")
 }
 
-// final evaluates cursor_matches_cut for every report on every operator stream, and exactly-once delivery.
+// final evaluates cursor_matches_cut_partial for every report on every operator stream, and exactly-once delivery.
 func (e *cutEnv) final() string {
 	const fin = uint64(1) << 40
 	e.sr.HandleStartCheckpoint(context.Background(), fin)
@@ -983,6 +1006,9 @@ func (e *cutEnv) final() string {
 				}
 				c, ok := rep.snap[ev.split]
 				if !ok {
+					if e.finishedOK != nil && e.finishedOK(ev.split) {
+						continue
+					}
 					if before {
 						return fmt.Sprintf("record of split %d ahead of barrier %d which does not report it", ev.split, rep.id)
 					}
@@ -1140,7 +1166,7 @@ func implCut(c lib.Case, maxSize, delayMs, nOps int) []string {
 }
 
 // ---------------------------------------------------------------------------------------------------------------
-// the barrier cut with the real embedded SourceReader, free running (only the statement of cursor_matches_cut is
+// the barrier cut with the real embedded SourceReader, free running (only the statement of cursor_matches_cut_partial is
 // observed, so the output does not depend on the schedule)
 
 type ecutHandler struct{ cutHandler }
@@ -1771,11 +1797,23 @@ func implKRead(c lib.Case, maxSize, delayMs, nOps, shards, limit int) []string {
 	arn := *d.StreamDescription.StreamARN
 
 	gate := &gateReader{permits: make(chan struct{}, 4), results: make(chan gateResult, 4), assigned: make(chan struct{}, 16)}
+	var finMu sync.Mutex
+	finished := map[int]bool{} // shards whose end the real reader reported through its hook
 	gate.inner = kinesis.NewSourceReader(kinesis.SourceConfig{StreamARN: arn, Client: kinesis.NewLocalClient(srv.URL)},
-		connectors.SourceReaderHooks{NotifySplitsFinished: func([]string) {}})
+		connectors.SourceReaderHooks{NotifySplitsFinished: func(ids []string) {
+			finMu.Lock()
+			for _, id := range ids {
+				finished[c16ShardNum(id)] = true
+			}
+			finMu.Unlock()
+		}})
+	isFinished := func(s int) bool { finMu.Lock(); defer finMu.Unlock(); return finished[s] }
 	inits := map[int]int{}
 	var order []int
+	put := map[int]int{}
+	closed := map[int]bool{}
 	e := &cutEnv{}
+	e.finishedOK = isFinished
 	e.parseState = func(b []byte) (int, int) {
 		var st kinesispb.Shard
 		if gproto.Unmarshal(b, &st) != nil {
@@ -1796,14 +1834,17 @@ func implKRead(c lib.Case, maxSize, delayMs, nOps, shards, limit int) []string {
 		}
 		last := e.reports[len(e.reports)-1]
 		for _, s := range order {
-			l = append(l, cutSplit{s, inits[s], last.snap[s]})
+			pos, ok := last.snap[s]
+			if !ok && isFinished(s) {
+				pos = put[s] // read to its end and dropped by the reader
+			}
+			l = append(l, cutSplit{s, inits[s], pos})
 		}
 		return l
 	}
 	e.start(maxSize, delayMs, nOps, gate, kreadHandler{}, nil)
 	defer func() { gate.stopped.Store(true); e.close() }()
 
-	put := map[int]int{}
 	started := false
 	for _, op := range c.Ops {
 		if c16Abandoned(out) {
@@ -1812,9 +1853,26 @@ func implKRead(c lib.Case, maxSize, delayMs, nOps, shards, limit int) []string {
 		}
 		f := strings.Fields(op)
 		switch f[0] {
+		case "close":
+			// the shard is split in the middle of its range: it is closed and ends after its last record
+			sh, _ := strconv.Atoi(f[1])
+			w := new(big.Int).Div(c16Max, big.NewInt(int64(shards)))
+			at := new(big.Int).Mul(w, big.NewInt(int64(sh)))
+			at.Add(at, new(big.Int).Rsh(w, 1))
+			id, ats := c16ShardID(sh), at.String()
+			if _, err := admin.SplitShard(ctx, &awskinesis.SplitShardInput{StreamARN: &arn, ShardToSplit: &id, NewStartingHashKey: &ats}); err != nil {
+				out = append(out, "err")
+			} else {
+				closed[sh] = true
+				out = append(out, "ok")
+			}
 		case "put":
 			sh, _ := strconv.Atoi(f[1])
 			n, _ := strconv.Atoi(f[2])
+			if closed[sh] {
+				out = append(out, "closed")
+				continue
+			}
 			key := c16KeyForShard(shards, sh)
 			var recs []kinesistypes.PutRecordsRequestEntry
 			for i := 0; i < n; i++ {
@@ -1858,6 +1916,11 @@ func implKRead(c lib.Case, maxSize, delayMs, nOps, shards, limit int) []string {
 			k, _ := strconv.Atoi(f[1])
 			failIn.Store(int64(k))
 			out = append(out, "ok")
+		case "expire":
+			// every shard iterator handed out so far expires: the reader's next GetRecords on such a shard gets
+			// ExpiredIteratorException, refreshes the iterator and asks again within the same ReadEvents
+			fk.ExpireShardIterators()
+			out = append(out, "ok")
 		case "kread", "kreadm":
 			res := gateResult{}
 			if started {
@@ -1887,9 +1950,9 @@ func implKRead(c lib.Case, maxSize, delayMs, nOps, shards, limit int) []string {
 				out = append(out, line)
 				continue
 			}
-			// the statement of cursor_matches_cut_kinesis on the implementation: per reported shard, the records
+			// the statement of cursor_matches_cut_kinesis_partial on the implementation: per reported shard, the records
 			// received ahead of the barrier are exactly those from its assigned position up to the reported one
-			out = append(out, kreadVerdict(e, id, inits))
+			out = append(out, kreadVerdict(e, id, inits, isFinished, put))
 		case "end":
 			out = append(out, e.final())
 		default:
@@ -1899,7 +1962,7 @@ func implKRead(c lib.Case, maxSize, delayMs, nOps, shards, limit int) []string {
 	return out
 }
 
-func kreadVerdict(e *cutEnv, id uint64, inits map[int]int) string {
+func kreadVerdict(e *cutEnv, id uint64, inits map[int]int, isFinished func(int) bool, put map[int]int) string {
 	rep := e.reports[len(e.reports)-1]
 	got := map[int]map[int]int{}
 	for _, o := range e.ops {
@@ -1929,7 +1992,9 @@ func kreadVerdict(e *cutEnv, id uint64, inits map[int]int) string {
 	sort.Ints(shards)
 	for _, s := range shards {
 		pos, ok := rep.snap[s]
-		if !ok {
+		if !ok && isFinished(s) {
+			pos = put[s] // the reader reached the shard's end and dropped it: everything of it is ahead of the barrier
+		} else if !ok {
 			return fmt.Sprintf("records of shard %d ahead of barrier %d which does not report it", s, id)
 		}
 		for i := inits[s]; i < pos; i++ {
@@ -1976,6 +2041,7 @@ func genKRead(r *lib.Rng) lib.Case {
 	}
 	c.Ops = append(c.Ops, "assign "+strings.Join(as, ","))
 	b, fails := 0, 0
+	closedShard := map[int]bool{}
 	for n := r.Range(6, 14); n > 0; n-- {
 		switch k := r.Intn(10); {
 		case k < 5:
@@ -1983,6 +2049,16 @@ func genKRead(r *lib.Rng) lib.Case {
 		case k < 7:
 			b++
 			c.Ops = append(c.Ops, fmt.Sprintf("%s %d", bar, b))
+		case k < 9 && r.Chance(1, 3):
+			// expired shard iterators, alone or with a throttled request on the first or the repeated GetRecords
+			c.Ops = append(c.Ops, "expire")
+			if fails < 2 && r.Chance(1, 2) {
+				fails++
+				c.Ops = append(c.Ops, fmt.Sprintf("fail %d", r.Range(1, 3)))
+				c.Tags = append(c.Tags, "kread-fail")
+			}
+			c.Ops = append(c.Ops, rd, rd)
+			c.Tags = append(c.Tags, "kread-expire")
 		case k < 9:
 			if fails < 2 {
 				fails++
@@ -1991,7 +2067,18 @@ func genKRead(r *lib.Rng) lib.Case {
 				c.Tags = append(c.Tags, "kread-fail")
 			}
 		default:
-			c.Ops = append(c.Ops, fmt.Sprintf("put %d %d", r.Intn(shards), r.Range(1, 6)))
+			sh := r.Intn(shards)
+			if closedShard[sh] {
+				continue
+			}
+			if r.Chance(1, 3) {
+				// the shard is closed: the reader reaches its end, notifies and drops it; later reports omit it
+				closedShard[sh] = true
+				c.Ops = append(c.Ops, fmt.Sprintf("close %d", sh), rd, rd, rd)
+				c.Tags = append(c.Tags, "kread-end")
+				continue
+			}
+			c.Ops = append(c.Ops, fmt.Sprintf("put %d %d", sh, r.Range(1, 6)))
 		}
 	}
 	b++
@@ -2200,6 +2287,11 @@ func genKin(r *lib.Rng, tier string) lib.Case {
 	shards := lib.Pick(r, []int{1, 1, 2, 2, 3, 4})
 	runners := lib.Pick(r, []int{1, 2, 2, 3, 5})
 	c := lib.Case{Header: fmt.Sprintf("M C16 kin %d %d", shards, runners), Tags: []string{"kin"}}
+	if r.Chance(1, 3) {
+		// ListShards answered in pages of 1..3 shards: discovery has to follow NextToken
+		c.Header += fmt.Sprintf(" %d", r.Range(1, 3))
+		c.Tags = append(c.Tags, "kin-paged")
+	}
 	g := newGenStream(shards)
 	// some lineage may exist before the splitter first starts
 	nOps := r.Range(8, 28)
@@ -2397,7 +2489,7 @@ func genCut(r *lib.Rng, tier string) lib.Case {
 			next++
 			// A split is never assigned to a reader twice: the splitters hand every split out once per deployment
 			// (C16.one_reader, partition_disjoint) and a deployment starts with a fresh reader. That is the hypothesis of
-			// C16.cursor_matches_cut; what the appending readers do with a duplicate is outside the property.
+			// C16.cursor_matches_cut_partial; what the appending readers do with a duplicate is outside the property.
 			splits = append(splits, id)
 			l = append(l, fmt.Sprintf("%d@%d", id, lib.Pick(r, []int{0, 0, 3, 40})))
 		}
@@ -2568,7 +2660,7 @@ func propC16() *lib.Prop {
 	return &lib.Prop{
 		ID:   "C16",
 		Corr: "Model/Splits.lean ↔ kinesis.SourceSplitter+SplitTracker (against kinesisfake), uniformlyAssignShard, embedded/httpapi splitters, sliceu.Partition, SourceRunner.processEvents (barrier cut with a scripted reader)",
-		Rule: "cases: kin = op sequences (split/merge of the stream, discovery ticks, finish notifications in any order, checkpoint, restore) on the real Kinesis splitter; cut = assign/read/barrier scripts (reads of up to 2000 records; checkpoint requests arriving inside a read: before/after the cursors move and while its records are being emitted, triggered by the k-th record arriving downstream) on the real SourceRunner with a scripted reader; job = real jobs.Job + snapshots.Store + httpapi splitter with a storage location that holds a snapshot write until the replacement operator is being deployed (checkpoint id the operators restore vs position the split resumes from); kread = the real Kinesis SourceReader (kinesisfake) under the real ReadSourceChannel and SourceRunner, one gated ReadEvents per op, GetRecords requests failing with a retryable throttling error at chosen points, positions at barriers vs records received ahead of them; ckrace = Checkpoint() of the real splitter taken concurrently with its loop handing out shards (stress, D61); ecut = the real embedded SourceReader free-running under the real SourceRunner with barriers at random moments (only the statement of cursor_matches_cut is observed); misc = Partition/embedded/httpapi/uniformlyAssignShard blocks. non-trivial = kin case with a restore from a checkpoint after the stream was resharded, cut case with a barrier after a read, or misc block",
+		Rule: "cases: kin = op sequences (split/merge of the stream, discovery ticks, finish notifications in any order, checkpoint, restore) on the real Kinesis splitter; cut = assign/read/barrier scripts (reads of up to 2000 records; checkpoint requests arriving inside a read: before/after the cursors move and while its records are being emitted, triggered by the k-th record arriving downstream) on the real SourceRunner with a scripted reader; job = real jobs.Job + snapshots.Store + httpapi splitter with a storage location that holds a snapshot write until the replacement operator is being deployed (checkpoint id the operators restore vs position the split resumes from); kread = the real Kinesis SourceReader (kinesisfake) under the real ReadSourceChannel and SourceRunner, one gated ReadEvents per op, GetRecords requests failing with a retryable throttling error, expired shard iterators and shard ends (closed shard: real NotifySplitsFinished hook, reader drops it) at chosen points, positions at barriers vs records received ahead of them; ckrace = Checkpoint() of the real splitter taken concurrently with its loop handing out shards (stress, D61); ecut = the real embedded SourceReader free-running under the real SourceRunner with barriers at random moments (only the statement of cursor_matches_cut_partial is observed); misc = Partition/embedded/httpapi/uniformlyAssignShard blocks. non-trivial = kin case with a restore from a checkpoint after the stream was resharded, cut case with a barrier after a read, or misc block",
 		NumCases: func(tier string) int {
 			if tier == "thorough" {
 				return 8000
@@ -2589,12 +2681,20 @@ func propC16() *lib.Prop {
 			// the restart resumes it from the reported position and its children wait
 			cs = append(cs, lib.Case{Header: "M C16 kin 1 1", Tags: []string{"kin", "fixed-D52", "kin-restore-lineage", "kin-state-of-finished"},
 				Ops: []string{"start", "split 0 100", "tick", "finish 0", "ckpt 0=5", "restore", "chk", "finish 0", "tick", "chk"}})
-			// D16c (open): withheld shards below LastAssigned are lost by a restore
-			cs = append(cs, lib.Case{Header: "M C16 kin 2 2", Tags: []string{"kin", "witness-D16c", "kin-restore-lineage"},
+			// D16c (repaired): withheld shards below LastAssigned survive a restore (persisted in the splitter state)
+			cs = append(cs, lib.Case{Header: "M C16 kin 2 2", Tags: []string{"kin", "fixed-D16c", "kin-restore-lineage"},
 				Ops: []string{"start", "split 0 " + mid0, "split 1 " + mid1, "tick", "finish 1", "ckpt 0=7,4=9", "split 2 1000", "restore", "finish 0", "tick", "chk"}})
 			// a publication lands between assembly.Deploy and sourceSplitter.Start of the redeploy
 			cs = append(cs, lib.Case{Header: "M C16 job", Tags: []string{"job", "job-race"},
 				Ops: []string{"deploy", "ckpt 10", "ckpt 20 hold", "fail race", "ckpt 33", "fail", "ckpt 40 hold", "fail", "release", "fail"}})
+			// expired iterators, also with the repeated GetRecords throttled
+			cs = append(cs, lib.Case{Header: "M C16 kread 1 1 1 2 2", Tags: []string{"kread", "kread-expire", "kread-fail", "kread-mech"},
+				Ops: []string{"put 0 6", "put 1 6", "assign 0@-,1@-", "kreadm", "expire", "kreadm", "kreadm", "kbarrierm 1", "expire", "fail 2", "kreadm", "kreadm", "kreadm", "expire", "fail 1", "kreadm", "kreadm", "kreadm", "kbarrierm 2", "end"}})
+			// a shard ends while it is being read: barrier right after the end, more reads, another barrier
+			cs = append(cs, lib.Case{Header: "M C16 kread 2 1 2 2 3", Tags: []string{"kread", "kread-end", "kread-mech"},
+				Ops: []string{"put 0 4", "put 1 5", "assign 0@-,1@-", "kreadm", "close 0", "kreadm", "kreadm", "kbarrierm 1", "kreadm", "kreadm", "kbarrierm 2", "put 0 3", "put 1 2", "kreadm", "kreadm", "kbarrierm 3", "end"}})
+			cs = append(cs, lib.Case{Header: "M C16 kread 1 1 1 3 2", Tags: []string{"kread", "kread-end"},
+				Ops: []string{"put 0 2", "put 1 3", "put 2 0", "assign 0@-,1@-,2@-", "close 2", "close 0", "kread", "kread", "kread", "kbarrier 1", "kread", "kread", "kbarrier 2", "kread", "kread", "kread", "kbarrier 3", "end"}})
 			// throttled GetRecords on a shard that is not the first one of a polling round
 			cs = append(cs, lib.Case{Header: "M C16 kread 4 2 1 2 5", Tags: []string{"kread", "kread-fail"},
 				Ops: []string{"put 0 12", "put 1 9", "assign 0@-,1@-", "fail 2", "kread", "kread", "kread", "kbarrier 1", "kread", "kread", "fail 1", "kread", "kbarrier 2", "kread", "kread", "kread", "kread", "kbarrier 3", "end"}})
@@ -2633,6 +2733,9 @@ func propC16() *lib.Prop {
 				return genCut(r, tier)
 			case k < 16:
 				return genKRead(r)
+			case k < 17 && r.Chance(1, 12):
+				// checkpoints taken while the real splitter loop hands out shards (D61), small instance
+				return lib.Case{Header: "M C16 ckrace", Tags: []string{"ckrace"}, Ops: []string{fmt.Sprintf("stress %d %d", r.Range(60, 200), r.Range(5, 15))}}
 			case k < 17:
 				return genECut(r)
 			case k < 18:
@@ -2651,7 +2754,9 @@ func propC16() *lib.Prop {
 			mode, a := c16Header(c)
 			switch {
 			case mode == "kin" && len(a) == 2:
-				return implKin(c, a[0], a[1])
+				return implKin(c, a[0], a[1], 0)
+			case mode == "kin" && len(a) == 3:
+				return implKin(c, a[0], a[1], a[2])
 			case mode == "cut" && len(a) == 3:
 				return c16Retry(func() []string { return implCut(c, a[0], a[1], a[2]) })
 			case mode == "ckrace":
